@@ -121,9 +121,52 @@ class Gen(object):
     def small_srcs(self, srcs, maxhi=255):
         return [s for s in srcs if s.kind == "int" and s.lo >= -128 and s.hi <= maxhi]
 
+    WIDE_CONSTS = [0, 1, 2, 255, 256, 65535, 65536, 2 ** 31 - 1, 2 ** 31, 2 ** 32 - 1, 2 ** 32, 2 ** 63 - 1, 2 ** 63, 2 ** 64 - 1,
+                   -1, -2, -(2 ** 31), -(2 ** 31) - 1, -(2 ** 63)]
+
+    @staticmethod
+    def gate_ok(*ranges):
+        """The compiler's 64-bit rule: an operation's operands and result must all fit int64_t, or all fit uint64_t."""
+        lo = min(x for x, _y in ranges)
+        hi = max(y for _x, y in ranges)
+        return (lo >= -(1 << 63) and hi < (1 << 63)) or (lo >= 0 and hi < (1 << 64))
+
+    def wide_int_expr(self, srcs, depth=0):
+        """(expr, lo, hi) over sources of any width (1..8-byte fields, parameters) and constants at the 2^31 / 2^32 /
+        2^63 / 2^64 edges, every operation kept inside the compiler's 64-bit gate by interval arithmetic: run-time
+        arithmetic in int32 / uint32 / int64 / uint64 and the casts between them."""
+        r = self.rng
+        ints = [s for s in srcs if s.kind == "int"]
+        k = r.random()
+        if depth >= 2 or not ints or k < 0.3:
+            if ints and r.random() < 0.75:
+                s = r.choice(ints)
+                return ref(*s.path), s.lo, s.hi
+            v = r.choice(self.WIDE_CONSTS)
+            return num(v), v, v
+        a, alo, ahi = self.wide_int_expr(srcs, depth + 1)
+        b, blo, bhi = self.wide_int_expr(srcs, depth + 1)
+        if k < 0.5:
+            e, lo, hi = op("+", a, b), alo + blo, ahi + bhi
+        elif k < 0.7:
+            e, lo, hi = op("-", a, b), alo - bhi, ahi - blo
+        elif k < 0.8:
+            c = [alo * blo, alo * bhi, ahi * blo, ahi * bhi]
+            e, lo, hi = op("*", a, b), min(c), max(c)
+        elif k < 0.9:
+            e, lo, hi = op("$max", a, b), max(alo, blo), max(ahi, bhi)
+        else:
+            c = self.bool_expr(srcs, depth + 1)
+            e, lo, hi = op("?:", c, a, b), min(alo, blo), max(ahi, bhi)
+        if not self.gate_ok((alo, ahi), (blo, bhi), (lo, hi)):
+            return a, alo, ahi
+        return e, lo, hi
+
     def int_expr(self, srcs, depth=0, lo_hint=0):
         """(expr, lo, hi) over small sources; result magnitude stays < 2**40."""
         r = self.rng
+        if getattr(self, "wide_now", False):
+            return self.wide_int_expr(srcs, depth)
         small = self.small_srcs(srcs, 65535)
         k = r.random()
         if depth >= 2 or not small or k < 0.3:
@@ -158,6 +201,15 @@ class Gen(object):
             s = r.choice(enums)
             vn = r.choice(s.enum.values)[0]
             return op(r.choice(["==", "==", "!="]), ref(*s.path), ("enum", s.enum.name, vn))
+        if k < 0.85 and getattr(self, "wide_now", False) and [x for x in srcs if x.kind == "int"]:
+            # comparison of wide operands: both sides must fit one 64-bit type
+            a, alo, ahi = self.wide_int_expr(srcs, depth + 1)
+            b, blo, bhi = self.wide_int_expr(srcs, depth + 1) if r.random() < 0.5 else (None, 0, 0)
+            if b is None:
+                c = r.choice([v for v in self.WIDE_CONSTS if self.gate_ok((alo, ahi), (v, v))] or [0])
+                b, blo, bhi = num(c), c, c
+            if self.gate_ok((alo, ahi), (blo, bhi)):
+                return op(r.choice(["==", "!=", "<", "<=", ">", ">="]), a, b)
         if k < 0.85 and ints:
             s = r.choice(ints)
             c = r.choice([0, 1, 2, 3, 4, 5, 8, 10, 100, 128])
@@ -267,6 +319,7 @@ class Gen(object):
         s = Struct(self.tname(TYPE_WORDS), "struct")
         used = set()
         srcs = []
+        wsrcs = []
         fields = []
         off = 0  # constant offset so far, or None when dynamic
         dyn_off = None  # expression for the current end when dynamic
@@ -369,6 +422,8 @@ class Gen(object):
 
             if k < 0.34 or leaf and k < 0.6:
                 nbytes = r.choice([1, 1, 1, 2, 2, 3, 4, 4, 5, 6, 7, 8, 8])
+                if self.wide_module and r.random() < 0.5:
+                    nbytes = r.choice([4, 4, 8])  # exactly the widths of the C++ types the expressions are evaluated in
                 t = self.scalar_type(nbytes)
                 if t.kind == "enum" and not (t.ref.need_bits <= nbytes * 8 <= t.ref.max_bits()):
                     t = Type("uint")
@@ -394,6 +449,12 @@ class Gen(object):
                         srcs.append(Src((nm,), 0, 99))
                     elif t.kind == "enum":
                         srcs.append(Src((nm,), 0, 0, "enum", t.ref))
+                    elif self.wide_module and not self.p["text"] and t.kind in ("uint", "int", "bcd"):
+                        # 3..8-byte integers: mentioned only by the wide (32/64-bit) expressions
+                        nb = 8 * nbytes
+                        lo, hi = (0, (1 << nb) - 1) if t.kind == "uint" else (
+                            (-(1 << (nb - 1)), (1 << (nb - 1)) - 1) if t.kind == "int" else (0, 10 ** (2 * nbytes) - 1))
+                        wsrcs.append(Src((nm,), lo, hi))
                     else:
                         if self.p["text"] and r.random() < 0.5:
                             f.text_output = r.choice(["Skip", "Emit"] if f.requires is None else ["Emit"])  # nothing depends on it
@@ -533,20 +594,43 @@ class Gen(object):
                     f = Field(name, "virtual", expr=e)
                     srcs.append(Src((name,), lo, hi))
                 elif vk < 0.55:
+                    self.wide_now = self.wide_module and r.random() < 0.5
                     f = Field(name, "virtual", expr=self.bool_expr(srcs), cond=cond)
+                    self.wide_now = False
                     if cond is None:
                         srcs.append(Src((name,), 0, 1, "bool"))
                 elif vk < 0.62:
                     v = r.choice([0, 1, 7, 255, 65536, -1, 2 ** 31, 2 ** 32, 2 ** 63 - 1, -(2 ** 63)])
                     f = Field(name, "virtual", expr=num(v))
                 else:
+                    self.wide_now = self.wide_module and r.random() < 0.6
                     e, lo, hi = self.int_expr(srcs)
+                    self.wide_now = False
                     f = Field(name, "virtual", expr=e, cond=cond)
                     if self.p["allow_requires"] and r.random() < 0.08 and cond is None:
                         f.requires = op(r.choice(["<", ">=", "!="]), ref("this"), num(r.choice([0, 5, 100])))
                     if cond is None and -70000 <= lo and hi <= 70000:
                         srcs.append(Src((name,), lo, hi))
                 fields.append(f)
+        if self.wide_module and self.p["allow_virtual"] and [x for x in srcs + wsrcs if x.kind == "int"]:
+            srcs = srcs + wsrcs  # (a new list: the wide sources stay out of everything generated before)
+            # a few more virtual fields doing 32/64-bit arithmetic and comparisons on whatever integer fields exist
+            self.wide_now = True
+            for _ in range(r.randint(1, 3)):
+                name = self.fname(used, r.choice(["wide", "sum", "mix"]))
+                if r.random() < 0.7:
+                    e, lo, hi = self.wide_int_expr(srcs)
+                    if e[0] == "num":
+                        a, alo, ahi = self.wide_int_expr(srcs, 1)
+                        b, blo, bhi = self.wide_int_expr(srcs, 1)
+                        for o, (lo2, hi2) in (("+", (alo + blo, ahi + bhi)), ("-", (alo - bhi, ahi - blo))):
+                            if self.gate_ok((alo, ahi), (blo, bhi), (lo2, hi2)):
+                                e = op(o, a, b)
+                                break
+                    fields.append(Field(name, "virtual", expr=e))
+                else:
+                    fields.append(Field(name, "virtual", expr=self.bool_expr(srcs)))
+            self.wide_now = False
         if self.p["allow_cond"] and off is not None and r.random() < (0.95 if force_union else 0.4):
             # tagged-union block: several fields guarded by `discriminant == constant`, sharing
             # discriminants (incl. the same member of two sub-structure instances) and case values
@@ -591,6 +675,8 @@ class Gen(object):
         r = self.rng
         m = Module(byte_order=r.choice(["LittleEndian", "BigEndian"]))
         m.omit_default_order = r.random() < 0.25
+        self.wide_module = self.p.get("wide_exprs", r.random() < 0.35)
+        self.wide_now = False
         self.module = m
         if r.random() < 0.2:
             m.namespace = r.choice(["a::b", "::emb::gen", "zz", "x::y::z"])
